@@ -46,6 +46,17 @@ FORMULATIONS = [
      "ode": {"dynamics": [{"expression": "g'' = -g/2 - 3*g'/2", "initial_values": {"g": "0", "g'": "1/2"}}, {"expression": "V' = -V/tau + g", "initial_value": "0"}]},
      "chain": {"dynamics": [{"expression": "g' = k", "initial_value": "0"}, {"expression": "k' = -g/2 - 3*k/2", "initial_value": "1/2"}, {"expression": "V' = -V/tau + g", "initial_value": "0"}]},
      "map": {"k": "g__d"}},
+    # another equation refers to a DERIVATIVE of the re-formulated shape
+    {"name": "alpha_derivative_read_elsewhere",
+     "fot": {"dynamics": [{"expression": "g = (e/tau)*t*exp(-t/tau)"}, {"expression": "V' = -V/tau_m + g'/C", "initial_value": "0"}]},
+     "ode": {"dynamics": [{"expression": "g'' = -g/tau**2 - 2*g'/tau", "initial_values": {"g": "0", "g'": "e/tau"}}, {"expression": "V' = -V/tau_m + g'/C", "initial_value": "0"}]},
+     "chain": {"dynamics": [{"expression": "g' = k", "initial_value": "0"}, {"expression": "k' = -g/tau**2 - 2*k/tau", "initial_value": "e/tau"}, {"expression": "V' = -V/tau_m + k/C", "initial_value": "0"}]},
+     "map": {"k": "g__d"}},
+    {"name": "third_order_derivatives_read_elsewhere",
+     "fot": {"dynamics": [{"expression": "V' = -V/2 + g'' - g'/4", "initial_value": "1"}, {"expression": "g = t**2*exp(-t)"}]},
+     "ode": {"dynamics": [{"expression": "V' = -V/2 + g'' - g'/4", "initial_value": "1"}, {"expression": "g''' = -g - 3*g' - 3*g''", "initial_values": {"g": "0", "g'": "0", "g''": "2"}}]},
+     "chain": {"dynamics": [{"expression": "V' = -V/2 + m - k/4", "initial_value": "1"}, {"expression": "g' = k", "initial_value": "0"}, {"expression": "k' = m", "initial_value": "0"}, {"expression": "m' = -g - 3*k - 3*m", "initial_value": "2"}]},
+     "map": {"k": "g__d", "m": "g__d__d"}},
 ]
 
 
